@@ -19,36 +19,36 @@ CLAIMS = {
             "through the fusion guard, whose two setters sit under exactly the word/word and punctuator-relex tests; chunks never to be "
             "written left of the output column; newlines made inside directives to carry a backslash; and no chunk-editing site to be "
             "live with the code-modifying option families at their defaults. These are for-all-inputs statements about loss, "
-            "duplication, reordering and fusion. For each of the 766 punctuator pairs (per language) whose concatenation lexes to a longer first token - comment openers included - a forced blank is shown reachable in space_text; every deletion or swap of a line break is shown guarded by SafeToDeleteNl (not after a // comment, not across a directive end) or is one of four reviewed sites. The column arithmetic is not decided.", "DESIGN.md section 4 C02"),
+            "duplication, reordering and fusion. For each of the 766 punctuator pairs (per language) whose concatenation lexes to a longer first token - comment openers included - a forced blank is shown reachable in space_text; every deletion or swap of a line break is shown guarded by SafeToDeleteNl (not after a // comment, not across a directive end) or is one of four reviewed sites; space_needed(), which writes the decision into the merged text of a conversion operator's type, cannot return 0 for two words. The column arithmetic is not decided.", "DESIGN.md section 4 C02"),
     "C03": ("table agreement between the tokenizer's literal types and output_text's is_literal test, exhaustiveness of the comment-type dispatch, shared effect census, who-may-call for the character writers, guard census of every line-break deletion/swap (SafeToDeleteNl)",
             "Every type a string parser can assign is written with is_literal=true; every CT_COMMENT* value any SetType can produce has "
             "a comment-writer arm; with the comment/string options at default no text-rewriting site is reachable; all characters "
-            "pass add_char/add_text; no line break is deleted or swapped with a token unless SafeToDeleteNl holds (so no token can be pulled into a // comment). The re-flow and re-indent arithmetic inside the comment writers is not decided.", "DESIGN.md section 4 C03"),
+            "pass add_char/add_text; no line break is deleted or swapped with a token unless SafeToDeleteNl holds (so no token can be pulled into a // comment); in every call-free loop each branch reads something the body changes (the raw-string delimiter comparison never advanced on the pinned tree). The re-flow and re-indent arithmetic inside the comment writers is not decided.", "DESIGN.md section 4 C03"),
     "C04": ("effect analysis: census of every token-visible effect site (chunk text mutation, chunk creation, deletion, move) + inter-procedural liveness under the abstract default configuration (constant folding of dominating option tests along every call chain, latch flags included); same-block pairing of brace edits; guard analysis of brace removal; who-may-move in the sorters",
             "All 135 sites that can change, create, delete or move a chunk are enumerated; with the mod_/cmt_ option families at their "
             "defaults 105 are shown unreachable from uncrustify_file on every call chain, the rest act on newline/blank chunks by a "
             "dominating type test or are six reviewed exceptions - that is the property's last sentence for all inputs. Brace "
             "conversions, insertions and removals are shown to come in pairs under one path condition; braces are removed only after "
             "the body scan found the matching close brace with one statement and under a remove setting; sorting permutes whole lines "
-            "only; the token tested for `else` after a removable block is shown to be a real token (all virtual brace closes skipped by a loop) and an `else` there blocks the removal when the block contains an `if`. The statement counting inside can_remove_braces/examine_brace (the arithmetic) is not decided.", "DESIGN.md section 4 C04"),
+            "only; the token tested for `else` after a removable block is shown to be a real token (all virtual brace closes skipped by a loop) and an `else` there blocks the removal when the block contains an `if`; both body scanners count a nested block as a statement; a whole line is deleted as a duplicate only under a comparison that walks both lines to their ends. The statement counting inside can_remove_braces/examine_brace (the arithmetic) is not decided.", "DESIGN.md section 4 C04"),
     "C06": ("three-valued abstract interpretation of every natural loop with a chunk cursor under cursor == NullChunk (navigation closure and predicate truth table derived from chunk.h/chunk.cpp bodies); guard analysis of every m_next/m_prev store; census of throwing conversions/regex constructions vs try blocks (AST ancestry); the same three-valued interpretation of every input-consuming tokenizer loop under the end-of-input state (more()=false, peek()/get()=0, helper functions evaluated on constants); interval analysis (literals, sizeof, dominating comparisons, BoundedOption ranges, loop-exit facts, unsigned-wrap obligations) of every write into a fixed-size character buffer; length-guard analysis of constant-index text accessors; must-pass-through of a diagnostic before every non-zero exit; reachability of error exits from output_text",
             "All 376 loops that advance a Chunk* cursor through the navigation family are shown escapable when the cursor is the null "
             "chunk (the hang class of truncated/unbalanced input: ten such loops were found and fixed); the null chunk's links are "
             "shown immutable, which is the lemma the walk analysis rests on; every regex construction from run-time text is inside "
             "a try block and every std::sto* behind a format check; each of the ~120 non-zero exits has a documented status and a "
-            "diagnostic on every path to it; no error exit is reachable once output has started except two recorded findings; all 48 tokenizer loops that read through TokenContext are shown escapable at the end of the input (one hang found and fixed); all 42 writes into fixed-size character buffers reachable from main are shown in bounds by interval facts (three overflows found and fixed, seven reviewed sites); every constant-index .at() on a chunk text has a dominating length test (one abort found and fixed). "
+            "diagnostic on every path to it; no error exit is reachable once output has started except two recorded findings; all 48 tokenizer loops that read through TokenContext are shown escapable at the end of the input (one hang found and fixed); all 42 writes into fixed-size character buffers reachable from main are shown in bounds by interval facts (three overflows found and fixed, seven reviewed sites); every constant-index .at() on a chunk text has a dominating length test (one abort found and fixed); Chunk::Delete refuses the static null chunk; a logged diagnostic that is the last message before an exit ends in a newline or is flushed. "
             "Heap objects, iterator validity, integer overflow elsewhere and wall-time bounds are not decided - they need a whole-program value analysis that is out "
             "of reach for this code base with the tools present.", "DESIGN.md section 4 C06"),
     "C07": ("dominance of the disabled-region test over every parser call in parse_next; data-flow of every character read by parse_ignored into the chunk text; guard of the strip loop; exact shape of the raw output branch; effect census restricted to CT_IGNORED; must-reset of cpd.unc_off; sibling agreement of the newline editors on the CT_IGNORED test",
             "While processing is off parse_ignored runs before every other parser and consumes no input before the test; it appends "
             "every character up to the line end and types the chunk CT_IGNORED; such chunks are not stripped, are written by the raw "
-            "branch of add_text only, are named by no editing site, and the newline after them is left alone; newline_iarf_pair and newline_add_between refuse every edit whose second chunk is a region line; the off state is "
+            "branch of add_text only, are named by no editing site, and the newline after them is left alone; newline_iarf_pair and newline_add_between refuse every edit whose second chunk is a region line; nothing reachable from parse_ignored touches the line-ending census; the off state is "
             "cleared per file. Holds for arbitrary region content. Chunks that mod_ options insert next to a region line (a replayed defect of the pinned tree, DESIGN.md section 6) and the blank-line structure around a region are not decided.", "DESIGN.md section 4 C07"),
     "C08": ("who-may-call for the character writers + guard analysis of add_char's CR/LF arms; extraction of the (option, census) -> terminator table at the tail of tokenize(); backward/forward must-pass-through pairing of every line-break event of the tokenizer with a census increment; census of every mention of cpd.le_counts (increments, the choice, the single reset); CR/LF sibling-comparison check (thorough)",
             "Every output character is shown to pass add_char, where LF becomes exactly cpd.newline and CR is dropped; cpd.newline "
             "is assigned only by an exhaustive three-row table at the end of tokenize(); each of the tokenizer's line-break events "
             "outside disabled regions is paired with one census increment on every path (4 string-parser sites are recorded known "
-            "findings with replay inputs); the census only grows between the first character and the choice - its only reset is in uncrustify_end, although tokenize() is re-entered for inserted comment templates; the thorough tier checks that every function comparing input with LF also handles CR. "
+            "findings with replay inputs); the census only grows between the first character and the choice - its only reset is in uncrustify_end, although tokenize() is re-entered for inserted comment templates - and nothing reachable from parse_ignored() counts; the thorough tier checks that every function comparing input with LF also handles CR. "
             "This is what makes terminator choice and normalisation independent of where a line break sits. The two-run "
             "commutation equations are not decided.", "DESIGN.md section 4 C08"),
     "C20": ("must-pass-through of the nl_max test on every newline path of do_blank_lines; effect summaries (may-set-newline-count) over the call graph against the position of do_blank_lines in the newline loop; option provenance to count sinks vs the nl_max guard set; option-family partition of newlines_eat_start_end; guard/receiver analysis of the eat_blanks sites; forced-fact path exploration of can_increase_nl (veto priority); neighbour-navigation check of newlines_cleanup_dup",
@@ -56,7 +56,7 @@ CLAIMS = {
             "newline loop nothing that can raise a count runs after the cap except three calls shown to only lower or take the "
             "maximum; all count-raising options are compared with nl_max before any source is read (including --set overrides); "
             "start/end-of-file handling reads only its own option family on the matching end of the list; both eat_blanks options "
-            "reduce the brace-adjacent newline to one and veto increases with priority over every rule except the nl_inside_* ones; one recorded finding: newline chunks separated by a virtual brace are capped separately and add up. Holds for all inputs; the arithmetic between the ~40 "
+            "reduce the brace-adjacent newline to one and veto increases with priority over every rule except the nl_inside_* ones; nothing that can raise a count may run after the last cap - five recorded findings: newline chunks separated by a virtual brace add up, and the code_width retry block / split_line / sort_imports raise counts after the last do_blank_lines(). Holds for all inputs; the arithmetic between the ~40 "
             "blank-line options and passes after the newline loop are not decided.", "DESIGN.md section 4 C20"),
     "C09": ("closed-form table agreement: numeric extraction of the UTF-8 encoder/decoder branch tables and of the UTF-16 surrogate arithmetic from the expression trees, exhaustiveness of the encoding switches, who-may-write for cpd.enc/cpd.bom and who-may-call for the byte writers",
             "For all six UTF-8 lengths the encoder's bit fields are shown disjoint and covering, its thresholds equal 2^(payload "
@@ -88,32 +88,32 @@ CLAIMS = {
             "formatting itself is C10's subject.", "DESIGN.md section 4 C12"),
     "C13": ("must-pass-through / dominance on do_source_file's CFG (backup < open(tmp) < write < close < rename, rename guarded by clean close) + who-may-call for rename/unlink/write-mode opens; reaching definitions of the write-error flag (must be fed by ferror); shape of make_output_filename (name identity for in-place detection)",
             "For every path of do_source_file(): only the suffixed temp name is opened for writing, a backup (unless no_backup) and its "
-            "failure exit precede it, fclose precedes rename with no write in between, the rename is control-dependent on a flag fed by ferror(pfout) (the sticky indicator - the writers ignore their results) and by fclose, nothing is written after ferror was read, the output name for --replace reproduces the input name verbatim so that the textual in-place test fires, and no other function renames/unlinks or opens files for writing. This ordering is what makes every "
+            "failure exit precede it, fclose precedes rename with no write in between, the rename is control-dependent on a flag fed by ferror(pfout) (the sticky indicator - the writers ignore their results) and by fclose, nothing is written after ferror was read, the output name for --replace reproduces the input name verbatim so that the textual in-place test fires, uncrustify_file returns only after output_text (failures exit), MD5::Update leaves fewer than 64 bytes buffered (the md5 shortcut decides about the backup), and no other function renames/unlinks or opens files for writing. This ordering is what makes every "
             "crash or fault point leave either the complete original or the complete new file; it holds for all inputs and fault "
             "points, which no fault-injection sample can enumerate. Kernel atomicity of rename(2) is assumed.", "DESIGN.md section 4 C13"),
     "C14": ("must-pass-through on do_source_file (md5 only after rename/unlink, with a checked flag-latch lemma) + guard analysis of backup_copy_file + writer/reader format table agreement",
             "Every path to backup_create_md5_file passes the install of the formatted file; after an install with a backup the md5 is "
             "always recorded; backup_copy_file writes iff the recorded md5 differs from the md5 of exactly the bytes read and nothing "
-            "else can skip it; writer and reader agree on 32 lower-case hex digits of dig[0..15]. That is the protocol of backup.h "
-            "decided for all histories; MD5 arithmetic itself is not examined.", "DESIGN.md section 4 C14"),
+            "else can skip it; writer and reader agree on 32 lower-case hex digits of dig[0..15]; MD5::Update keeps the block-buffer invariant (< 64 bytes buffered) that makes the digest independent of chunking; the in-place detection the protocol hangs on is shared with C13. That is the protocol of backup.h "
+            "decided for all histories; the MD5 round function is not examined.", "DESIGN.md section 4 C14"),
     "C15": ("writer/reader table agreement extracted from the parsed program (directive words, enum string tables of the generated option_enum.cpp, quote/escape sets), must-pass-through in save_option_file, registry census over the 857 option objects, who-may-write for Option::m_val, provenance of the values stored in the extension map, mutation census of the config line buffer",
             "Every directive the writers print is one the loader dispatches on; for all four enumerated option types "
             "convert_string(to_string(v)) = v and every advertised spelling is accepted; string values are written with exactly the "
             "reader's special characters escaped; the writer skips an option only under `minimal`; all 857 option objects are "
-            "registered once under their own lower-case identifier; option values are stored only by the reader functions; file_ext mappings store the canonical table name the writer selects by; each config line reaches the quote-aware splitter unmodified. These "
+            "registered once under their own lower-case identifier; option values are stored only by the reader functions; file_ext mappings store the canonical table name the writer selects by and the writer skips no entry; each config line reaches the quote-aware splitter unmodified. These "
             "are closed-form facts over the whole registry and all spellings. Numeric printf/strtol round-tripping and include "
             "resolution are not decided.", "DESIGN.md section 4 C15"),
     "C16": ("guard analysis of every m_val store in the reader instantiations, must-pass-through (warning before every `return false`, effect-or-warning on every path of process_option_line), throwing-conversion census with dominating-check idioms, option-provenance to newline-count sinks vs the nl_max guard set, ordering in main, call-graph cycle analysis with a depth-guard obligation",
-            "All 8 stores to an option value are shown to sit behind validate()/type tests and to store the very expression that was validated; all 56 `return false` exits of the readers "
+            "All 8 stores to an option value are shown to sit behind validate()/type tests and to store the very expression that was validated, passed to validate() in its full width; all 56 `return false` exits of the readers "
             "and of every BoundedOption::validate instantiation are preceded by a diagnostic; no configuration line can be consumed "
             "silently; every std::stoi-family call has a dominating non-empty/digits/length check; all 139 unsigned options are bounded; every "
             "unsigned option that can raise a newline count is compared with nl_max, and that comparison runs after the last option "
-            "store and before any source is read. The include recursion load_option_file <-> process_option_line is shown depth-guarded (a self-including file overflowed the stack on the pinned tree; fixed). Holds for every configuration text; the wording of diagnostics is not decided.", "DESIGN.md section 4 C16"),
+            "store and before any source is read. The include recursion load_option_file <-> process_option_line is shown depth-guarded (a self-including file overflowed the stack on the pinned tree; fixed), restores what it overwrites for the nested file, and value diagnostics name the file being read (fixed). Holds for every configuration text; the wording of diagnostics is not decided.", "DESIGN.md section 4 C16"),
     "C17": ("who-may-call for the character writers; must-pass-through of the trailing-blank strip in tokenize(); constant folding of the tab decisions of output_text/add_char under the abstract configuration indent_with_tabs=0 (with path-sensitive refinement of reaching definitions); guard analysis of the blank buffer; option-family partition of the end-of-file policy",
             "Every chunk outside disabled regions loses its trailing blanks and tabs before it enters the chunk list, on every path; all "
             "output characters pass add_char, which buffers blanks and flushes them only before a non-blank; under indent_with_tabs=0 "
             "(pp_indent_with_tabs -1/0) every definition of allow_tabs that reaches the column advance of a line-start token folds to false and a tab after a blank is expanded - "
-            "for all inputs and all other option values; the reader of unknown directive bodies never appends a blank that follows a backslash (the strip keeps one such blank for // comments); the end-of-file newline policy reads only its own option family. Trailing "
+            "for all inputs and all other option values; the reader of unknown directive bodies never appends a blank that follows a backslash (the strip keeps one such blank for // comments); no option or cpd state conditions the strip; the end-of-file newline policy reads only its own option family. Trailing "
             "blanks produced by column arithmetic inside comment continuation lines and alignment are not decided.", "DESIGN.md section 4 C17"),
     "C18": ("dominance / ordering of the pass pipeline in uncrustify_file and of structure-changing calls relative to indent_text (effect summaries over the call graph); "
             "taint census: every read of an original-position accessor reachable from indent_text, with inter-procedural liveness under the all-defaults abstract configuration (constant folding of dominating option tests along every call chain)",
@@ -129,7 +129,7 @@ CLAIMS = {
     "C19": ("CFG dataflow (last-logged-rule x option provenance) over all do_space returns + who-may-call + switch-arm effect check",
             "Every return of do_space() (359) is checked: the option named by the last log_rule on each path is the option whose "
             "value (or a guard on it) decides the return; do_space is reachable only through ensure_force_space; the appliers' "
-            "FORCE/REMOVE arms are checked to add exactly min_sp / nothing and never consult original columns. This is a "
+            "FORCE/REMOVE arms are checked to add exactly min_sp / nothing (two words excepted, as the property says) and never consult original columns; the Qt SIGNAL/SLOT override of eleven sp_ options is saved once and restored over the same table (rule shared with C11). This is a "
             "for-all-paths statement about the decision function that the 2035 sampled tests cannot give; it does not decide "
             "the later column arithmetic of alignment/indent passes.", "DESIGN.md section 4 C19"),
 }
